@@ -264,16 +264,16 @@ def run(ctx):
     w0 = W.World(WF, files={"nested/dir/keep": (1, "k")}, conf=None)
     w1 = W.World(WF, files={"nested/dir/keep": (1, "k")}, conf={"a": 1, "a.b": "x", "backend": "slurm"})
     prefix = [["set", "a", "1"], ["set", "a.b", "x"], ["set", "backend", "slurm"]]
-    e2.bfs(ctx, me, "conf_expand", [w0, (w1, prefix)], 2 if quick else 2, chunk=2, keys=KEYS_FULL if not quick else ["a", "a.b", "a.bc", "verbose", "clean_logs", "neverset", "backend.slurmx.y"],
+    e2.bfs(ctx, me, "conf_expand", [w0, (w1, prefix)], 2 if quick else 3, chunk=2, keys=KEYS_FULL if not quick else ["a", "a.b", "a.bc", "verbose", "clean_logs", "neverset", "backend.slurmx.y"],
            values=VALUES_FULL if not quick else ["5", "-3", "yes", "false", "True", "", "text", "a b"])
-    e2.bfs(ctx, me, "conf_expand", [w0], 3 if quick else 4, chunk=2, keys=["a", "a.b", "verbose"], values=["5", "no", "é"])
+    e2.bfs(ctx, me, "conf_expand", [w0], 3 if quick else 5, chunk=2, keys=["a", "a.b", "verbose"], values=["5", "no", "é"])
     bk = [None, "slurm", "sge", "lsf", "local"]
     ctx.pmap(me, "prec_batch", [("backend", f, c) for f in bk for c in bk] + [("verbose", f, c) for f in (None, "debug", "info", "warning") for c in (None, "debug", "info", "warning")], chunk=4)
     ctx.pmap(me, "colour_batch", [(f, c, e) for f in (None, "--no-color", "--use-color") for c in (None, True, False) for e in (False, True)], chunk=2)
     ctx.pmap(me, "ns_batch", [(b, "all") for b in ("slurm", "sge", "lsf", "local")] + [(b, k) for b in ("slurm", "sge", "lsf", "local") for k in NS_CONF if not k.startswith(f"backend.{b}.")], chunk=4)
     ctx.traces_validated = ctx.acc.extra["transitions"]
     ctx.rule = "conf: state = content of .gwfconf.json (reference map), every set/unset transition is three real invocations; prec/ns: one case per flag x config (x environment) combination"
-    ctx.bound = dict(conf_depth="2 over the wide alphabet, 3-4 over {a, a.b, verbose} x {5, no, é}", keys=len(KEYS_FULL), values=len(VALUES_FULL), colour_combinations=18)
+    ctx.bound = dict(conf_depth="2 (thorough 3) over the wide alphabet, 3 (thorough 5) over {a, a.b, verbose} x {5, no, é}", keys=len(KEYS_FULL), values=len(VALUES_FULL), colour_combinations=18)
     ctx.assumptions = ["strings whose integer-ness is debatable (1_000, ' 12 ', '007') are outside the alphabet", "no scheduler is installed in the sandbox, so the guessed default backend is 'local'",
                        "`config get` of an unset key that has a built-in default may print the default or <not set>"]
 
